@@ -25,6 +25,13 @@ REVIEWED_PRE_GATE = {
 }
 
 
+def _utf8(prog: Program, module: str, a: ast.AST) -> bool:
+    """the argument names UTF-8: a literal, or a module-level constant bound to one"""
+    if isinstance(a, ast.Name):
+        a = prog.module_assigns.get(module, {}).get(a.id, a)
+    return isinstance(a, ast.Constant) and isinstance(a.value, str) and a.value.lower().replace("_", "-") in ("utf-8", "utf8")
+
+
 def run(prog: Program) -> Results:
     res = Results("C07")
     fc = prog.func("NixSourceCode.from_cst")
@@ -65,9 +72,10 @@ def run(prog: Program) -> Results:
             return True
         if isinstance(e, ast.Attribute) and e.attr == "has_error" and isinstance(e.value, ast.Name) and e.value.id == node_param:
             return True
-        if isinstance(e, ast.Call) and isinstance(e.func, ast.Name) and e.func.id in fc.nested and len(e.args) == 1 \
-                and isinstance(e.args[0], ast.Name) and e.args[0].id == node_param:
-            inner = fc.nested[e.func.id].node
+        if isinstance(e, ast.Call) and isinstance(e.func, ast.Name) and len(e.args) == 1 \
+                and isinstance(e.args[0], ast.Name) and e.args[0].id == node_param and (
+                    e.func.id in fc.nested or (e.func.id in prog.funcs and prog.funcs[e.func.id].cls is None)):
+            inner = (fc.nested.get(e.func.id) or prog.funcs[e.func.id]).node  # nested or module-level scanner
             txt = norm(inner)
             scans = "'ERROR'" in txt and ".children" in txt and f"{e.func.id}(" in txt and ".type" in txt
             return scans
@@ -112,6 +120,10 @@ def run(prog: Program) -> Results:
     # true arm shape
     rv = raw_return.value
     exprs = next((k.value for k in rv.keywords if k.arg == "expressions"), None)
+    if isinstance(exprs, ast.List) and len(exprs.elts) == 1 and isinstance(exprs.elts[0], ast.Name):
+        ds = assignments_to(fn, exprs.elts[0].id)  # `verbatim = RawExpression(…)` named before the return
+        if len(ds) == 1 and isinstance(ds[0], ast.Assign):
+            exprs = ast.List(elts=[ds[0].value], ctx=ast.Load())
     trailing = next((k.value for k in rv.keywords if k.arg == "trailing"), None)
     ok = isinstance(exprs, ast.List) and len(exprs.elts) == 1 and isinstance(exprs.elts[0], ast.Call) \
         and callee(exprs.elts[0]) == "RawExpression"
@@ -173,7 +185,7 @@ def run(prog: Program) -> Results:
         if depth > 8:
             return "bad:too deep"
         if isinstance(e, ast.Call) and isinstance(e.func, ast.Attribute) and e.func.attr == "decode":
-            if any(not (is_const(a, "utf-8") or is_const(a, "utf8")) for a in e.args) or \
+            if any(not _utf8(prog, fc.module, a) for a in e.args) or \
                     any(k.arg == "errors" for k in e.keywords):
                 return "bad:lossy decode"
             return whole_input(e.func.value, at, depth + 1)
@@ -240,7 +252,7 @@ def run(prog: Program) -> Results:
             ds = assignments_to(pfn, e.id)
             return bool(ds) and all(isinstance(d, (ast.Assign, ast.AnnAssign)) and encoded_param(d.value, depth + 1) for d in ds)
         if isinstance(e, ast.Call) and isinstance(e.func, ast.Attribute) and e.func.attr == "encode" \
-                and all(is_const(a, "utf-8") or is_const(a, "utf8") for a in e.args) and not any(k.arg == "errors" for k in e.keywords):
+                and all(_utf8(prog, parse.module, a) for a in e.args) and not any(k.arg == "errors" for k in e.keywords):
             return encoded_param(e.func.value, depth + 1)
         if isinstance(e, ast.IfExp):
             return encoded_param(e.body, depth + 1) and encoded_param(e.orelse, depth + 1)
@@ -336,17 +348,20 @@ def run(prog: Program) -> Results:
         if not wildcard_ok or not fall_ok:
             res.add("R-C07-3", (key, "default arm"), f.loc(m),
                     f"the default arm of {key} does not raise ValueError (an unsupported/raw top-level expression must be refused)")
-    # set_value: value gate
+    # set_value: value gate.  Stated on expressions, not on local names: L = parse(<value>).expressions (however it is named);
+    # an element of L reaches the edit only where `len(L) == 1` and "the element is not a RawExpression" (or
+    # `parse(<value>).contains_error` is false) have been established
+    from sa.util import Aliases
     fnv = sv.node
     vcfg = CFG(fnv)
     value_param = sv.params()[2] if len(sv.params()) > 2 else None
-    pv = [d for d in ast.walk(fnv) if isinstance(d, ast.Assign) and isinstance(d.value, ast.Call) and callee(d.value) == "parse"
-          and d.value.args and isinstance(d.value.args[0], ast.Name) and d.value.args[0].id == value_param]
-    if len(pv) != 1 or not isinstance(pv[0].targets[0], ast.Name):
+    al = Aliases(fnv, calls=("parse",))
+    L = f"parse({value_param}).expressions"
+    parses = [d for d in ast.walk(fnv) if isinstance(d, ast.Call) and callee(d) == "parse" and d.args]
+    as_given = [d for d in parses if isinstance(d.args[0], ast.Name) and d.args[0].id == value_param]
+    if not as_given:
         # the value is parsed, but not as given: any rewriting (strip, slice, normalise) lets text through that is not one expression
-        rewritten = [d for d in ast.walk(fnv) if isinstance(d, ast.Call) and callee(d) == "parse" and d.args
-                     and not (isinstance(d.args[0], ast.Name) and d.args[0].id == value_param)
-                     and any(isinstance(x, ast.Name) and x.id == value_param for x in ast.walk(d.args[0]))]
+        rewritten = [d for d in parses if any(isinstance(x, ast.Name) and x.id == value_param for x in ast.walk(d.args[0]))]
         if rewritten:
             r3.instances += 1
             r3.ob(False, {"value_parse": norm(rewritten[0])[:60]})
@@ -355,37 +370,63 @@ def run(prog: Program) -> Results:
                     f"str.strip() also removes U+00A0, U+2028, U+3000 …, which Nix does not treat as blanks) is no longer checked, so a "
                     f"value that is not exactly one well-formed expression is accepted")
             return res
-        raise AnalysisError("set_value: `parsed = parse(value)` not found")
-    pvar = pv[0].targets[0].id
-    uses = []  # first extraction of the expression
-    for n in walk_no_nested(fnv):
-        if isinstance(n, ast.Subscript) and isinstance(n.ctx, ast.Load) and dotted(n.value) == f"{pvar}.expressions":
-            st = vcfg.containing(n)
-            if st is not None and st.kind == "stmt":
-                uses.append((n, st))
+        raise AnalysisError("set_value: `parse(value)` not found")
+
+    def is_L(e) -> bool:
+        return al.norm(e) == L
+
+    def is_elem(e) -> bool:
+        return (isinstance(e, ast.Subscript) and is_L(e.value)) or (isinstance(e, ast.Name) and e.id in elem_names)
+
+    # names that hold the element: `v = L[0]`, `(v,) = L`, copies of those
+    elem_names: set = set()
+    changed = True
+    while changed:
+        changed = False
+        for d in walk_no_nested(fnv):
+            if not (isinstance(d, ast.Assign) and len(d.targets) == 1):
+                continue
+            t = d.targets[0]
+            new = None
+            if isinstance(t, ast.Name) and is_elem(d.value):
+                new = t.id
+            elif isinstance(t, (ast.Tuple, ast.List)) and len(t.elts) == 1 and isinstance(t.elts[0], ast.Name) and is_L(d.value):
+                new = t.elts[0].id
+            if new and new not in elem_names:
+                elem_names.add(new)
+                changed = True
+    # sinks: the element handed to anything but a test
+    uses = []
+    for st in vcfg.nodes:
+        if st.ast is None or st.kind not in ("stmt", "return"):
+            continue
+        for c in ast.walk(st.ast):
+            if isinstance(c, ast.Call) and callee(c) not in ("isinstance", "len", "type") and any(is_elem(a) for a in list(c.args) + [k.value for k in c.keywords]):
+                uses.append((c, st))
     r3.instances += len(uses)
     if not uses:
-        raise AnalysisError("set_value: the value expression is never extracted from the parsed value")
+        raise AnalysisError("set_value: the value expression is never handed to the edit")
 
     def not_raw(a, truth):
-        return isinstance(a, ast.Call) and callee(a) == "isinstance" and len(a.args) == 2 and \
-            dotted(a.args[0].value if isinstance(a.args[0], ast.Subscript) else a.args[0]) == f"{pvar}.expressions" \
+        return isinstance(a, ast.Call) and callee(a) == "isinstance" and len(a.args) == 2 and is_elem(a.args[0]) \
             and "RawExpression" in norm(a.args[1]) and truth is False
 
     def single(a, truth):
         if not (isinstance(a, ast.Compare) and len(a.ops) == 1 and isinstance(a.left, ast.Call) and callee(a.left) == "len"
-                and a.left.args and dotted(a.left.args[0]) == f"{pvar}.expressions" and is_const(a.comparators[0], 1)):
+                and a.left.args and is_L(a.left.args[0]) and is_const(a.comparators[0], 1)):
             return False
         return (isinstance(a.ops[0], ast.NotEq) and truth is False) or (isinstance(a.ops[0], ast.Eq) and truth is True)
 
     def no_error(a, truth):
-        return dotted(a) == f"{pvar}.contains_error" and truth is False
+        return al.norm(a) == f"parse({value_param}).contains_error" and truth is False
 
     e_raw = edges_establishing(vcfg, not_raw) + edges_establishing(vcfg, no_error)
     e_one = edges_establishing(vcfg, single)
+    unpacks = [vcfg.node_of(d) for d in walk_no_nested(fnv) if isinstance(d, ast.Assign) and isinstance(d.targets[0], (ast.Tuple, ast.List))
+               and len(d.targets[0].elts) == 1 and is_L(d.value)]  # `(v,) = L` raises ValueError unless len(L) == 1
     for n, st in uses:
         a = vcfg.all_paths_pass(st, cut_edges=e_raw)
-        b = vcfg.all_paths_pass(st, cut_edges=e_one)
+        b = vcfg.all_paths_pass(st, cut_edges=e_one, cut_nodes=[u for u in unpacks if u is not None])
         r3.ob(a and b, {"use": norm(st.ast)[:70], "guards": ["not RawExpression", "len == 1"]})
         if not a:
             res.add("R-C07-3", ("set_value", "value may be raw"), sv.loc(n),
